@@ -41,6 +41,7 @@ struct Config {
     int prec_levels = 3;         // term precedence values 0..prec_levels-1
     int rprec_max = 0;           // explicit rule precedence values 1..rprec_max on at most rprec_rules rules
     int rprec_rules = 1;
+    bool with_prec = false;      // enumerate precedence/associativity assignments for S/R grammars (always on for C05)
     bool verbose = false;
     long max_grammars_per_frame = -1;
     bool has(const char* p) const { return props.count(p) != 0; }
@@ -756,11 +757,11 @@ static void enumerate_frame(FrameBase& f) {
         unsigned long long x = idx;
         for (int i = 0; i < f.R; ++i) { g.lhs[i] = int(x % f.NT); x /= f.NT; }
         for (auto& pj : pos) { int s = int(x % S); x /= S; g.rhs[pj.first][pj.second] = s < f.NT ? s : ref::TERM + (s - f.NT); }
-        if (!cfg.has("C05")) { run_one(g); continue; }
+        if (!cfg.has("C05") && !cfg.with_prec) { run_one(g); continue; }
         // C05: enumerate precedence/associativity only when the canonical collection has an S/R conflict
         ref::Analysis an = ref::analyse(g);
         ref::LR1 can = ref::build_lr1(g, an, false);
-        if (!can.any_sr) { ctr["C05.skipped_no_sr"]++; continue; }
+        if (!can.any_sr) { if (cfg.has("C05")) { ctr["C05.skipped_no_sr"]++; continue; } run_one(g); continue; }
         // terms and rules that take part in some S/R cell
         bool tin[ref::MAXT] = {}, rin[ref::MAXR] = {};
         for (auto& st : can.st) for (int t = 0; t < g.nterms(); ++t) if (st.cell[t].sr) { if (t < g.T) tin[t] = true; int r = st.cell[t].red[0]; rin[r] = true; int lt = g.last_term(r); if (lt >= 0 && lt < g.T) tin[lt] = true; }
@@ -821,6 +822,7 @@ int main(int argc, char** argv) {
         else if (a == "--deadline") cfg.deadline = std::atof(next().c_str());
         else if (a == "--prec-levels") cfg.prec_levels = std::atoi(next().c_str());
         else if (a == "--rprec-max") cfg.rprec_max = std::atoi(next().c_str());
+        else if (a == "--with-prec") cfg.with_prec = true;
         else if (a == "--max-per-frame") cfg.max_grammars_per_frame = std::atol(next().c_str());
         else if (a == "--one") { cfg.one = true; cfg.one_spec = next(); }
         else if (a == "--prec") cfg.one_prec = next();
